@@ -2039,8 +2039,6 @@ static int64_t eval3(Node *node, char ***label) {
   case ND_DEREF:
     // An lvalue of array type, e.g. `a[1]` of `int a[2][2]`, decays to
     // the address of its first element, which is the pointer's value.
-    if (!label)
-      error_tok(node->tok, "not a compile-time constant");
     if (node->ty->kind != TY_ARRAY)
       error_tok(node->tok, "invalid initializer");
     return eval2(node->lhs, label);
@@ -2050,8 +2048,6 @@ static int64_t eval3(Node *node, char ***label) {
     *label = &node->unique_label;
     return 0;
   case ND_MEMBER:
-    if (!label)
-      error_tok(node->tok, "not a compile-time constant");
     if (node->ty->kind != TY_ARRAY)
       error_tok(node->tok, "invalid initializer");
     return eval_rval(node->lhs, label) + node->member->offset;
@@ -2085,6 +2081,18 @@ static int64_t eval_rval(Node *node, char ***label) {
   error_tok(node->tok, "invalid initializer");
 }
 
+// An lvalue whose address is an integer constant: an object that is
+// reached from a constant pointer value, not a variable.
+static bool is_const_lvalue(Node *node) {
+  switch (node->kind) {
+  case ND_MEMBER:
+    return is_const_lvalue(node->lhs);
+  case ND_DEREF:
+    return is_const_expr(node->lhs);
+  }
+  return false;
+}
+
 static bool is_const_expr(Node *node) {
   add_type(node);
 
@@ -2109,14 +2117,22 @@ static bool is_const_expr(Node *node) {
   case ND_COND:
     if (!is_const_expr(node->cond))
       return false;
-    return is_const_expr(eval(node->cond) ? node->then : node->els);
+    return is_const_expr(eval_truth(node->cond) ? node->then : node->els);
   case ND_COMMA:
-    return is_const_expr(node->rhs);
+    return is_const_expr(node->lhs) && is_const_expr(node->rhs);
   case ND_NEG:
   case ND_NOT:
   case ND_BITNOT:
   case ND_CAST:
     return is_const_expr(node->lhs);
+  case ND_ADDR:
+    // The address of a member of an object at a constant address,
+    // as in the usual definition of offsetof.
+    return is_const_lvalue(node->lhs);
+  case ND_DEREF:
+  case ND_MEMBER:
+    // An array decays to its address.
+    return node->ty->kind == TY_ARRAY && is_const_lvalue(node);
   case ND_NUM:
     return true;
   }
